@@ -61,6 +61,28 @@ PROPS = {
     "C31": dict(mc={"quick": ["elect-q"], "thorough": ["elect-t"]}, mech=["StartRound"], min_mech=1),
 }
 
+ENGINE = {"name": "cluster",
+          "kind": "DEngine.tla + DECore.tla (TLC), dv-cluster step harness over real Raft nodes, DETrace.tla trace judge"}
+_TEXT = ("TLC model-checks the focused configuration of DEngine.tla (node entry points as actions, repaired design) "
+         "for this property's invariants; TLC-simulated behaviours of the as-implemented model and seeded random "
+         "schedules are replayed step by step into real d-engine Raft nodes (production election / replication / "
+         "commit / apply code, simulated transport and storage); TLC then judges every recorded state with the "
+         "property monitors of DETrace.tla and checks each step against the DECore operators (conformance).")
+_NOTE = ("trusted: TLC, the step harness' projection of node state, the in-memory storage engine and state machine "
+         "used in cluster runs; bounds 3 nodes and the constants reported in the evidence file; exhaustive only "
+         "at design level within those constants")
+_WHAT = {
+    "C01": "at most one leader per term", "C02": "one vote per term, term never decreases across crashes",
+    "C04": "log matching", "C05": "committed entries are never lost", "C06": "state machine safety",
+    "C07": "followers only commit leader-matching entries", "C08": "contiguous requests, gap-free logs",
+    "C09": "leader commit rule", "C10": "acknowledged writes are committed and durable",
+    "C14": "rejected writes are never applied", "C29": "one correct response per write",
+    "C31": "consistent leader notifications",
+}
+MANIFEST_INFO = {p: dict(technique="TLA+/TLC model checking of DEngine.tla + trace validation of real-node executions (DETrace.tla)",
+                         category="model_checking", text=w + ": " + _TEXT, note=_NOTE, ref="DESIGN.md sections 2-3, 9")
+                 for p, w in _WHAT.items()}
+
 TIER = {
     "quick": dict(sim_num=60, sim_depth=45, rnd_runs=80, rnd_depth=60, workers=8, mc_timeout=900),
     "thorough": dict(sim_num=1500, sim_depth=60, rnd_runs=1500, rnd_depth=80, workers=16, mc_timeout=3000),
